@@ -1,7 +1,7 @@
 (* C19 - concurrent sessions behave as if their statements ran one at a time.
    Model: every fake operation is an automaton issuing atomic engine calls; sessions are interleaved by an
    ARBITRARY schedule at call boundaries (run_sched), with or without the connect lock of instance.py. *)
-From FS Require Import Sexp Steps StepsProofs.
+From FS Require Import Sexp Steps StepsProofs StepsMerge.
 
 (* For EVERY number n of sessions connecting to the same database and schema (auto-created), EVERY schedule,
    with or without the lock: at every reachable point every session is `good` (no call has failed or can fail: each
@@ -73,3 +73,33 @@ Example merge_shared_refuted :
   klook (tbls (fst (run_all true merge_sched [merge_setup; [Connect DB SC; Merge 1 MT1 MS1]; [Connect DB SC; Merge 2 MT2 MS2]]))) MT1 = Some [1].
 Proof. exact merge_shared_refuted_l. Qed.
 Print Assumptions merge_shared_refuted.
+
+(* ... and the functional result: from ANY state in which the operations the other sessions still have to run write neither the
+   target k nor the source src (e.g. after a set-up session created and filled the tables), under EVERY schedule, at the moment
+   session i's MERGE applies its candidates they are exactly the source rows missing from the target as it is now - the call
+   leaves the target as the MERGE run alone would: target ++ (source rows not in target) *)
+Theorem merge_serial_result : forall lk sch i k src st0, k <> src -> FInv i k src st0 ->
+  let st := run_sched lk sch st0 in
+  forall s sid rest, nth_error (snd st) i = Some s -> todo s = Merge sid k src :: rest -> pc s = 1%nat ->
+  exists tr sr, klook (tbls (fst st)) k = Some tr /\ klook (tbls (fst st)) src = Some sr /\
+                klook (tbls (fst (exec (fst st) (ApplyCands i k)))) k = Some (tr ++ cands_of tr sr).
+Proof. exact merge_serial_result_l. Qed.
+Print Assumptions merge_serial_result.
+
+Theorem merge_serial_result_from_start : forall lk sch scripts i k src, k <> src ->
+  (forall j ops, nth_error scripts j = Some ops -> Forall (op_ok i k src j) ops) ->
+  let st := run_sched lk sch (e0, map mk_sess scripts) in
+  forall s sid rest, nth_error (snd st) i = Some s -> todo s = Merge sid k src :: rest -> pc s = 1%nat ->
+  exists tr sr, klook (tbls (fst st)) k = Some tr /\ klook (tbls (fst st)) src = Some sr /\
+                klook (tbls (fst (exec (fst st) (ApplyCands i k)))) k = Some (tr ++ cands_of tr sr).
+Proof. exact merge_serial_result_from_start_l. Qed.
+Print Assumptions merge_serial_result_from_start.
+
+(* the hypothesis is met after the set-up of the merges-private scenario, and a schedule interleaving the two MERGEs reaches the call *)
+Example merge_serial_holds_somewhere :
+  FInv 1 MT1 MS1 ms_state /\
+  let st := run_sched true [1; 1; 1; 1; 2; 2; 2; 2; 1; 2; 2]%nat ms_state in
+  (exists s rest, nth_error (snd st) 1 = Some s /\ todo s = Merge 1 MT1 MS1 :: rest /\ pc s = 1%nat) /\
+  klook (tbls (fst (exec (fst st) (ApplyCands 1 MT1)))) MT1 = Some [7; 1].
+Proof. split; [exact ms_state_finv|exact merge_serial_nonvacuous_l]. Qed.
+Print Assumptions merge_serial_holds_somewhere.
